@@ -243,6 +243,17 @@ func tabOne(scn int, sc TabScenario) ([]rec.Event, error) {
 				hangs++
 				return append(evs, rec.Event{"ev": "End", "scn": scn, "final": []readRes{}}), nil
 			}
+		case "OpenLate":
+			// the multiplexer is closed: no connection may come into being
+			c, err := a.Open(realID(op.X))
+			switch {
+			case err != nil:
+				e["r"] = "refused"
+			case c == nil:
+				e["r"] = "nil"
+			default:
+				e["r"] = "opened:" + readOnce(c, time.Second).R
+			}
 		case "Unblock":
 			a.Unblock()
 		default:
